@@ -6,10 +6,10 @@ CONSTANTS
   DtNum = 1
   DtDen = 4
   Spots = {1,2,4}
-  Vars = {1,4}
+  Vars = {4}
   Spots2 = {1}
-  Configs <- Singles1
-  EmitMod = 499
+  Configs <- NoVarSingles
+  EmitMod = 7
   EmitRes = 0
 INVARIANT NonAnticipative
 INVARIANT FeatureReadsSound
